@@ -39,6 +39,9 @@ type psfSub struct {
 	ackYield  int    // yields between receiving and Wait (manual)
 	bodyYield int    // yields in the loop body
 	leaveBy   string // iter: "cancel" | "break"
+	errCancel bool   // iter: the context cancels itself right after an Err() call that answered nil
+	members   []*psfSub
+	bulk      int // bulk: this subscriber is one of `bulk` subscriptions registered and withdrawn together (Add(+k) / Add(-k))
 
 	// history
 	subCalled, subReturned     int64
@@ -59,7 +62,23 @@ type psfSend struct {
 }
 
 func (s psfSub) String() string {
-	return fmt.Sprintf("{%s pre=%d early=%v max=%d trig=%d+%d ack=%d body=%d %s}", s.kind, s.pre, s.early, s.maxRecv, s.trigSend, s.trigYield, s.ackYield, s.bodyYield, s.leaveBy)
+	return fmt.Sprintf("{%s pre=%d early=%v max=%d trig=%d+%d ack=%d body=%d %s errCancelCtx=%v bulk=%d}", s.kind, s.pre, s.early, s.maxRecv, s.trigSend, s.trigYield, s.ackYield, s.bodyYield, s.leaveBy, s.errCancel, s.bulk)
+}
+
+// psfErrCancelCtx is a context that cancels itself right after an Err() call that answered nil: the adversary of
+// every check-then-act on Err() (a context may be cancelled at any instant, in particular just after it was asked).
+type psfErrCancelCtx struct {
+	context.Context
+	armed  atomic.Bool
+	cancel context.CancelFunc
+}
+
+func (c *psfErrCancelCtx) Err() error {
+	e := c.Context.Err()
+	if e == nil && c.armed.CompareAndSwap(true, false) {
+		defer c.cancel()
+	}
+	return e
 }
 
 func psfYield(n int) {
@@ -87,7 +106,7 @@ func TestPubSubFree(t *testing.T) {
 		}
 		for i := range subs {
 			s := &psfSub{}
-			s.kind = rapid.SampledFrom([]string{"manual", "manual", "iter", "iter", "iter-never-run"}).Draw(t, "kind")
+			s.kind = rapid.SampledFrom([]string{"manual", "manual", "manual", "iter", "iter", "iter", "iter-never-run", "bulk"}).Draw(t, "kind")
 			s.pre = rapid.SampledFrom([]int{0, 0, 1, 3, 10}).Draw(t, "pre")
 			s.early = rapid.Bool().Draw(t, "early")
 			s.maxRecv = rapid.SampledFrom([]int{-1, -1, 0, 1, 2, 4}).Draw(t, "maxRecv")
@@ -100,6 +119,16 @@ func TestPubSubFree(t *testing.T) {
 			s.ackYield = rapid.SampledFrom([]int{0, 0, 0, 1, 3}).Draw(t, "ackYield")
 			s.bodyYield = rapid.SampledFrom([]int{0, 0, 1, 3}).Draw(t, "bodyYield")
 			s.leaveBy = rapid.SampledFrom([]string{"cancel", "cancel", "break", "break", "panic", "goexit"}).Draw(t, "leaveBy")
+			s.errCancel = rapid.IntRange(0, 2).Draw(t, "errCancelCtx") == 0
+			if s.kind == "bulk" {
+				s.bulk = rapid.IntRange(2, 3).Draw(t, "bulkK")
+				s.maxRecv = -1
+				s.trigSend = rapid.IntRange(0, 1).Draw(t, "bulkTrig") // prompt: leaves at the first Send call at the latest
+				s.trigYield = rapid.SampledFrom([]int{0, 1, 2, 3, 5, 8, 13, 30}).Draw(t, "bulkYield")
+				for j := 0; j < s.bulk; j++ {
+					s.members = append(s.members, &psfSub{kind: "manual", maxRecv: -1, trigSend: s.trigSend, ackYield: s.ackYield, bodyYield: s.bodyYield})
+				}
+			}
 			if s.kind == "iter-never-run" {
 				// contract: an iterator that is not run must have its context cancelled promptly, otherwise
 				// every Send (correctly) waits for it; so it leaves at the first Send call at the latest
@@ -111,10 +140,24 @@ func TestPubSubFree(t *testing.T) {
 		// drawn yield bursts at the library's instrumentation points widen the few-instruction windows inside Send / Add
 		hookY := map[int]int{}
 		for _, p := range []int{bigbuff.VerifCasterArmed, bigbuff.VerifCasterNegAdded, bigbuff.VerifPubSubSendLocked, bigbuff.VerifPubSubNegDecided, bigbuff.VerifPubSubPongPhase} {
-			hookY[p] = rapid.SampledFrom([]int{0, 0, 0, 1, 2, 5, 20}).Draw(t, "hookYield")
+			hookY[p] = rapid.SampledFrom([]int{0, 0, 0, 0, 1, 1, 2, 5, 5, 20, 20, 300}).Draw(t, "hookYield")
+		}
+		if rapid.IntRange(0, 19).Draw(t, "longStall") == 0 {
+			// one case in twenty: at one point a goroutine is away for very long (tens of thousands of yields), at most
+			// three times — long enough for any bounded spin elsewhere to give up
+			pts := []int{bigbuff.VerifPubSubSendLocked, bigbuff.VerifPubSubNegDecided, bigbuff.VerifCasterArmed, bigbuff.VerifCasterNegAdded, bigbuff.VerifPubSubPongPhase}
+			hookY[pts[rapid.IntRange(0, len(pts)-1).Draw(t, "longStallAt")]] = 30000
+		}
+		var longLeft [32]atomic.Int32 // a very long burst is spent at most three times per point and case
+		for i := range longLeft {
+			longLeft[i].Store(3)
 		}
 		bigbuff.VerifSetHook(func(p int) {
-			for i := hookY[p]; i > 0; i-- {
+			n := hookY[p]
+			if n >= 300 && (p < 0 || p >= len(longLeft) || longLeft[p].Add(-1) < 0) {
+				n = 1
+			}
+			for i := n; i > 0; i-- {
 				runtime.Gosched()
 			}
 		})
@@ -142,9 +185,17 @@ func TestPubSubFree(t *testing.T) {
 			midSendLeave int
 		)
 		stamp := func() int64 { return clock.Add(1) }
-		all := append([]*psfSub{witness}, subs...)
+		var logical []*psfSub // one entry per subscription (a bulk subscriber contributes its members)
+		for _, s := range subs {
+			if s.kind == "bulk" {
+				logical = append(logical, s.members...)
+			} else {
+				logical = append(logical, s)
+			}
+		}
+		all := append([]*psfSub{witness}, logical...)
 		if noWitness {
-			all = append([]*psfSub{{kind: "absent"}}, subs...)
+			all = append([]*psfSub{{kind: "absent"}}, logical...)
 		}
 
 		rapid.SyncTest(t, func(t *rapid.T) {
@@ -202,6 +253,20 @@ func TestPubSubFree(t *testing.T) {
 				defer func() { fire(); <-trigDone }()
 
 				switch s.kind {
+				case "bulk":
+					// k subscriptions registered with one Add(+k) that never receive and are withdrawn promptly with one
+					// Add(-k) (like an iterator that is never run, the holder must not linger: every Send waits for it)
+					s.subCalled = stamp()
+					x.Add(s.bulk)
+					s.subReturned = stamp()
+					markEarly()
+					<-quit
+					s.unsubCalled = stamp()
+					x.Add(-s.bulk)
+					s.unsubReturned = stamp()
+					for _, m := range s.members {
+						m.subCalled, m.subReturned, m.unsubCalled, m.unsubReturned = s.subCalled, s.subReturned, s.unsubCalled, s.unsubReturned
+					}
 				case "manual":
 					s.subCalled = stamp()
 					x.Add(1)
@@ -228,8 +293,14 @@ func TestPubSubFree(t *testing.T) {
 					x.Add(-1)
 					s.unsubReturned = stamp()
 				case "iter", "iter-never-run":
-					ctx, cancel := context.WithCancel(context.Background())
+					inner, cancel := context.WithCancel(context.Background())
 					defer cancel()
+					var ctx context.Context = inner
+					if s.errCancel {
+						w := &psfErrCancelCtx{Context: inner, cancel: cancel}
+						w.armed.Store(true)
+						ctx = w
+					}
 					s.subCalled = stamp()
 					seq := x.SubscribeContext(ctx)
 					s.subReturned = stamp()
@@ -454,7 +525,7 @@ func TestPubSubFree(t *testing.T) {
 				}
 				lastSeq[s] = j
 			}
-			for i, s := range subs {
+			for i, s := range logical {
 				for k := 1; k < len(s.got); k++ {
 					if pos[s.got[k].tok] != pos[s.got[k-1].tok]+1 {
 						fail("C06/not-contiguous", "subscription %d saw %v which is not a contiguous run of the global order %v", i, s.got, w)
@@ -479,7 +550,7 @@ func TestPubSubFree(t *testing.T) {
 				}
 			}
 			succ, pred := map[int]int{}, map[int]int{}
-			for i, s := range subs {
+			for i, s := range logical {
 				for k := 1; k < len(s.got); k++ {
 					a, b := s.got[k-1].tok, s.got[k].tok
 					if x, ok := succ[a]; ok && x != b {
@@ -506,7 +577,7 @@ func TestPubSubFree(t *testing.T) {
 			}
 		}
 		// ---- classification
-		for _, s := range subs {
+		for _, s := range logical {
 			for _, sd := range sends {
 				if s.unsubCalled != 0 && sd.called < s.unsubCalled && s.unsubCalled < sd.returned && s.subReturned < sd.called {
 					midSendLeave++
@@ -523,7 +594,7 @@ func TestPubSubFree(t *testing.T) {
 			}
 		}
 		neverRun := false
-		for _, s := range subs {
+		for _, s := range logical {
 			if s.kind == "iter-never-run" {
 				neverRun = true
 			}
